@@ -27,6 +27,11 @@ func NewLogHist(b int, m float64, max float64) *LogHist {
 }
 
 func (h *LogHist) bin(x float64) int {
+	if x < 1 {
+		// The conversion below truncates toward zero, which
+		// would count values just below the first bin in bin 0.
+		return -1
+	}
 	return int(h.mOverLogb * math.Log(x))
 }
 
